@@ -116,6 +116,8 @@ class Folder(object):
         base = self.ev(e.value)
         if isinstance(e.slice, ast.Slice):
             lo = self.ev(e.slice.lower) if e.slice.lower else None
+            if isinstance(lo, bool):
+                lo = int(lo)
             hi = self.ev(e.slice.upper) if e.slice.upper else None
             st = self.ev(e.slice.step) if e.slice.step else None
             return base[lo:hi:st]
@@ -325,6 +327,11 @@ class Folder(object):
                 raise Inconclusive("unpacking mismatch")
             for t, v in zip(target.elts, vals):
                 self.bind(t, v)
+        elif isinstance(target, ast.Attribute):
+            base = self.ev(target.value)
+            if not isinstance(base, Obj):
+                raise Inconclusive("attribute assignment on a non-schema object")
+            base.attrs[target.attr] = value
         elif isinstance(target, ast.Subscript):
             base = self.ev(target.value)
             if isinstance(target.slice, ast.Slice):
